@@ -25,7 +25,8 @@ META = {
         ' Round 8: list cells are written entry by entry (no dict.fromkeys de-duplication); no first-element fast path in _from_multiple.'
         ' Round 9: tracts_to_csv opens the file on every call; attribute names are not de-duplicated.'
         ' Round 10: the header decision of both writers is followed for the four combinations of (file exists, mode): header in all but append-to-existing.'
-        ' Round 11: every name in Tract.ATTRIBUTES is a value (data attribute or property), not a plain method; ilots witnesses are tried divisions first.'),
+        ' Round 11: every name in Tract.ATTRIBUTES is a value (data attribute or property), not a plain method; ilots witnesses are tried divisions first.'
+        " Round 12: helpers of the duplicate filter are exempt by stem ('duplicate')."),
     'families': ['TBL', 'EXC', 'SIB', 'ESCAPE', 'FORWARD', 'DEADPARAM', 'SIB-DEFAULTS'],
 }
 
